@@ -203,6 +203,11 @@ def r1(chk, facts):
         chk.expect(target in seen, f"reaches-core:{name}",
                    f"{b.key} does not reach {target} through calls inside ic_principal: bytes could become a Principal "
                    f"without the length check", ok_detail=f"{name} -> ... -> from_slice_core")
+        other = sorted(k for k in seen if re.search(rf"^{P}::from_text$|str::traits::FromStr>::from_str$|TryFrom<&str>>::try_from$", k))
+        chk.expect(not other, f"bytes-only:{name}",
+                   f"{b.key} (an entry point that is given bytes) also reaches the text constructor {other}: a byte string the byte constructor "
+                   f"rejects (longer than {MAX} bytes) can then be accepted because it happens to spell a principal's text form — bytes longer than "
+                   f"{MAX} must be rejected by every constructor", ok_detail="no text constructor reachable")
     # (g) compile-fail witnesses
     witness_rule(chk)
 
